@@ -25,6 +25,7 @@ OWNER = {
     "node_send_bounds": ("C08", "[MSend; MSync]"), "node_sync_bounds": ("C08", "[MSend; MSync]"),
     "ctor_resolver_bounds": ("C08", "[[MSend; MSync]; [MSend; MSync]]"),
     "green_token_unconditional": ("C08", "true"),
+    "other_marker_impls": ("C08", "0%nat"),
     "rc_orderings": ("C07", "[OAcqRel; OAcqRel; OAcqRel; OAcqRel]"),
     "rc_exclusive_refs": ("C07", "0%nat"),
     "slot_exclusive_refs_outside_teardown": ("C07", "0%nat"),
@@ -107,6 +108,20 @@ def main():
                   "true" if (re.search(r"unsafe\s+impl\s+Send\s+for\s+GreenToken\s*\{\s*\}", green_tok) and
                              re.search(r"unsafe\s+impl\s+Sync\s+for\s+GreenToken\s*\{\s*\}", green_tok)) else "false",
                   "green/token.rs: `unsafe impl Send/Sync for GreenToken {}` without conditions"))
+
+    # every other type gets its Send / Sync from the compiler: no further hand-written marker anywhere in the library
+    known = {"SyntaxNode", "GreenToken", "PackedGreenElement"}
+    others = 0
+    for root, _dirs, files in os.walk(os.path.join(REPO, "cstree", "src")):
+        for fn in files:
+            if not fn.endswith(".rs") or fn == "verif.rs":
+                continue
+            text = open(os.path.join(root, fn), encoding="utf-8").read()
+            for m in re.finditer(r"unsafe\s+impl\b[^{;]*?\b(Send|Sync)\s+for\s+([A-Za-z_][A-Za-z0-9_]*)", text):
+                if m.group(2) not in known:
+                    others += 1
+    facts.append(("other_marker_impls", "nat", "%d%%nat" % others,
+                  "cstree/src/**: number of `unsafe impl Send/Sync` for types other than SyntaxNode, GreenToken, PackedGreenElement"))
 
     # ---- C07: how the shared counter and the child slots are touched
     order_map = {"Relaxed": "ORelaxed", "Acquire": "OAcquire", "Release": "ORelease", "AcqRel": "OAcqRel", "SeqCst": "OSeqCst"}
